@@ -688,13 +688,23 @@ class Gen(object):
         if not c: return None
         return r.choice(c)
 
+    def entity_names(self):
+        ex = getattr(self.eng, 'gen_exclude', ())
+        return [n for n in sorted(self.eng.rules.ents) if n not in ex]
+
+    def live(self, ent=None):
+        w = self.eng.working
+        ex = getattr(self.eng, 'gen_exclude', ())
+        if ent is None: return sorted(o for o in w.objs if w.objs[o].ent not in ex)
+        return sorted(w.of_entity(ent))
+
     def create_op(self, ent=None):
         r = self.rng; eng = self.eng
-        ent = ent or r.choice(sorted(eng.rules.ents))
+        ent = ent or r.choice(self.entity_names())
         er = eng.rules.ents[ent]
         kw = {}
         for n, a in er.attrs.items():
-            if a.auto: continue
+            if a.auto or a.name in getattr(eng, 'gen_exclude_attrs', ()): continue
             if a.kind == 'scalar':
                 if a.is_pk or a.required and not a.has_default or r.random() < 0.6:
                     if a.required and not a.is_pk and r.random() < self.invalid_rate * 0.3: continue
@@ -747,9 +757,9 @@ class Gen(object):
             if eng.session is None: return None
             return {'op': kind}
         if kind in ('selectall', 'count'):
-            return {'op': kind, 'ent': r.choice(sorted(eng.rules.ents))}
+            return {'op': kind, 'ent': r.choice(self.entity_names())}
         if kind == 'bypk':
-            ent = r.choice(sorted(eng.rules.ents))
+            ent = r.choice(self.entity_names())
             er = eng.rules.ents[ent]
             how = r.choice(['getitem', 'get', 'exists', 'select'])
             c = self.live(er.root)
@@ -758,7 +768,7 @@ class Gen(object):
             pk = [r.choice(PKINTS if er.attrs[n].type == 'int' else PKSTRS) for n in er.pk]
             return {'op': 'bypk', 'ent': ent, 'pk': pk, 'how': how}
         if kind == 'bykey':
-            ent = r.choice(sorted(eng.rules.ents))
+            ent = r.choice(self.entity_names())
             er = eng.rules.ents[ent]
             keys = [k for k in eng.rules.unique_keys(ent)[1:] if all(er.attrs[n].kind == 'scalar' for n in k)]
             sc = [n for n, a in er.attrs.items() if a.kind == 'scalar' and not a.lazy]
@@ -776,7 +786,7 @@ class Gen(object):
             if how == 'get' and tuple(key) not in [tuple(k) for k in keys]: how = 'select'
             return {'op': 'bykey', 'ent': ent, 'key': kv, 'how': how}
         if kind == 'selectcmp':
-            ent = r.choice(sorted(eng.rules.ents))
+            ent = r.choice(self.entity_names())
             er = eng.rules.ents[ent]
             sc = [n for n, a in er.attrs.items() if a.kind == 'scalar' and a.type == 'int' and not a.lazy]
             if not sc: return None
@@ -792,12 +802,12 @@ class Gen(object):
             a = r.choice(attrs)
             return {'op': 'read', 'oid': oid, 'attr': a.name}
         if kind == 'set':
-            cands = [a for a in attrs if not a.auto and (not a.is_pk or r.random() < 0.05)]
+            cands = [a for a in attrs if not a.auto and a.name not in getattr(eng, 'gen_exclude_attrs', ()) and (not a.is_pk or r.random() < 0.05)]
             if not cands: return None
             a = r.choice(cands)
             return {'op': 'set', 'oid': oid, 'attr': a.name, 'val': self.value_for(a, oid)}
         if kind == 'setmany':
-            cands = [a for a in attrs if not a.auto and not a.is_pk]
+            cands = [a for a in attrs if not a.auto and not a.is_pk and a.name not in getattr(eng, 'gen_exclude_attrs', ())]
             if not cands: return None
             k = r.sample(cands, min(len(cands), r.randint(1, 3)))
             # at most one relationship attribute per set(): interactions between two relationship
